@@ -1,5 +1,15 @@
 //! Engines `frame` and `fs`: real `Frame::decode` and `FrameStream::{poll_next,poll_data}`
 //! over a scripted receive stream.
+//!
+//! `fs calls <script> <calls>`: call letters `n` = `poll_next`, `d` = `poll_data` on a bare `FrameStream`.
+//! `FrameStream::split` is `pub(crate)`: from outside the crate it is reachable only through
+//! `client::RequestStream::split` / `server::RequestStream::split`.  A call string over the letters
+//! `r` and `s` therefore runs on a real `h3::client::RequestStream` obtained from `send_request` over a
+//! one-stream transport whose bidirectional stream is the scripted stream (`OneConn` below; no SimQuic):
+//! `r` = one `poll_recv_data` (`while !has_data { poll_next … } poll_data`, the frame layer as a request
+//! body reader drives it), `s` = `split()`, the following calls go to the receive half.  Answers:
+//! `D:<hex>` / `N` (end of the body: clean end or a HEADERS frame) / `P` / `E:conn:<CODE>` /
+//! `E:quic:<code>`, consecutive `D` merged, `P` kept only as the last answer; `s` prints nothing.
 use crate::util::*;
 use bytes::{Buf, Bytes};
 use h3::frame::{FrameProtocolError, FrameStream, FrameStreamError};
@@ -206,6 +216,208 @@ fn normalise(v: Vec<Obs>) -> Vec<Obs> {
     out
 }
 
+// ---------------------------------------------------------------- a real client request stream over the scripted stream
+
+/// send side that swallows everything
+pub struct Sink {
+    id: u64,
+    writing: Option<quic::WriteBuf<Bytes>>,
+}
+
+impl quic::SendStream<Bytes> for Sink {
+    fn poll_ready(&mut self, _: &mut Context<'_>) -> Poll<Result<(), StreamErrorIncoming>> {
+        if let Some(mut w) = self.writing.take() {
+            while w.has_remaining() {
+                let n = w.chunk().len();
+                w.advance(n);
+            }
+        }
+        Poll::Ready(Ok(()))
+    }
+    fn send_data<T: Into<quic::WriteBuf<Bytes>>>(&mut self, data: T) -> Result<(), StreamErrorIncoming> {
+        self.writing = Some(data.into());
+        Ok(())
+    }
+    fn poll_finish(&mut self, _: &mut Context<'_>) -> Poll<Result<(), StreamErrorIncoming>> {
+        Poll::Ready(Ok(()))
+    }
+    fn reset(&mut self, _: u64) {}
+    fn send_id(&self) -> quic::StreamId {
+        quic::StreamId::try_from(self.id).unwrap()
+    }
+}
+
+/// the scripted receive stream with a sink as its send side
+pub struct ScriptedBidi {
+    recv: Scripted,
+    send: Sink,
+}
+
+impl quic::RecvStream for ScriptedBidi {
+    type Buf = Bytes;
+    fn poll_data(&mut self, cx: &mut Context<'_>) -> Poll<Result<Option<Bytes>, StreamErrorIncoming>> {
+        self.recv.poll_data(cx)
+    }
+    fn stop_sending(&mut self, c: u64) {
+        self.recv.stop_sending(c)
+    }
+    fn recv_id(&self) -> quic::StreamId {
+        self.recv.recv_id()
+    }
+}
+
+impl quic::SendStream<Bytes> for ScriptedBidi {
+    fn poll_ready(&mut self, cx: &mut Context<'_>) -> Poll<Result<(), StreamErrorIncoming>> {
+        self.send.poll_ready(cx)
+    }
+    fn send_data<T: Into<quic::WriteBuf<Bytes>>>(&mut self, data: T) -> Result<(), StreamErrorIncoming> {
+        self.send.send_data(data)
+    }
+    fn poll_finish(&mut self, cx: &mut Context<'_>) -> Poll<Result<(), StreamErrorIncoming>> {
+        self.send.poll_finish(cx)
+    }
+    fn reset(&mut self, c: u64) {
+        self.send.reset(c)
+    }
+    fn send_id(&self) -> quic::StreamId {
+        self.send.send_id()
+    }
+}
+
+impl quic::BidiStream<Bytes> for ScriptedBidi {
+    type SendStream = Sink;
+    type RecvStream = Scripted;
+    fn split(self) -> (Sink, Scripted) {
+        (self.send, self.recv)
+    }
+}
+
+/// a connection that has exactly one bidirectional stream to open (the scripted one), sinks for the
+/// client's own unidirectional streams, and nothing coming in
+#[derive(Clone)]
+pub struct OneConn {
+    bidi: std::rc::Rc<std::cell::RefCell<Option<ScriptedBidi>>>,
+    next_uni: std::rc::Rc<std::cell::Cell<u64>>,
+}
+
+impl quic::OpenStreams<Bytes> for OneConn {
+    type BidiStream = ScriptedBidi;
+    type SendStream = Sink;
+    fn poll_open_bidi(&mut self, _: &mut Context<'_>) -> Poll<Result<ScriptedBidi, StreamErrorIncoming>> {
+        match self.bidi.borrow_mut().take() {
+            Some(b) => Poll::Ready(Ok(b)),
+            None => Poll::Pending,
+        }
+    }
+    fn poll_open_send(&mut self, _: &mut Context<'_>) -> Poll<Result<Sink, StreamErrorIncoming>> {
+        let k = self.next_uni.get();
+        self.next_uni.set(k + 1);
+        Poll::Ready(Ok(Sink { id: k << 2 | 2, writing: None }))
+    }
+    fn close(&mut self, _: h3::error::Code, _: &[u8]) {}
+}
+
+impl quic::Connection<Bytes> for OneConn {
+    type RecvStream = Scripted;
+    type OpenStreams = OneConn;
+    fn poll_accept_recv(&mut self, _: &mut Context<'_>) -> Poll<Result<Scripted, quic::ConnectionErrorIncoming>> {
+        Poll::Pending
+    }
+    fn poll_accept_bidi(&mut self, _: &mut Context<'_>) -> Poll<Result<ScriptedBidi, quic::ConnectionErrorIncoming>> {
+        Poll::Pending
+    }
+    fn opener(&self) -> OneConn {
+        self.clone()
+    }
+}
+
+type Whole = h3::client::RequestStream<ScriptedBidi, Bytes>;
+type Half = h3::client::RequestStream<Scripted, Bytes>;
+
+/// the request stream before / after `split()` (the send half is kept alive next to the receive half)
+#[allow(dead_code)]
+enum Rs {
+    Whole(Whole),
+    Split(h3::client::RequestStream<Sink, Bytes>, Half),
+    Gone,
+}
+
+fn render_req_err(e: &h3::error::StreamError) -> String {
+    use h3::error::{ConnectionError, LocalError, StreamError};
+    match e {
+        StreamError::ConnectionError(ConnectionError::Local { error: LocalError::Application { code, .. } }) => {
+            format!("E:conn:{:?}", code)
+        }
+        StreamError::RemoteTerminate { code } => format!("E:quic:{}", code.value()),
+        StreamError::StreamError { code, .. } => format!("E:stream:{:?}", code),
+        _ => "E:other".into(),
+    }
+}
+
+fn poll_recv(rs: &mut Rs) -> Obs {
+    let w = futures_util::task::noop_waker();
+    let mut cx = Context::from_waker(&w);
+    let r = std::panic::catch_unwind(std::panic::AssertUnwindSafe(|| {
+        fn conv<B: Buf>(p: Poll<Result<Option<B>, h3::error::StreamError>>) -> Obs {
+            match p {
+                Poll::Pending => Obs::Pending,
+                Poll::Ready(Ok(None)) => Obs::None,
+                Poll::Ready(Ok(Some(mut d))) => Obs::Data(d.copy_to_bytes(d.remaining()).to_vec()),
+                Poll::Ready(Err(e)) => Obs::Err(render_req_err(&e)),
+            }
+        }
+        match rs {
+            Rs::Whole(s) => conv(s.poll_recv_data(&mut cx)),
+            Rs::Split(_, s) => conv(s.poll_recv_data(&mut cx)),
+            Rs::Gone => Obs::Err("E:gone".into()),
+        }
+    }));
+    r.unwrap_or(Obs::Panic)
+}
+
+/// `fs calls <script> <calls over r, s>`
+fn request_calls(script: VecDeque<Ev>, calls: &str) -> String {
+    let conn = OneConn {
+        bidi: std::rc::Rc::new(std::cell::RefCell::new(Some(ScriptedBidi {
+            recv: Scripted { script: shared(script), id: 0 },
+            send: Sink { id: 0, writing: None },
+        }))),
+        next_uni: Default::default(),
+    };
+    let mut bd = h3::client::builder();
+    bd.send_grease(false);
+    let mut f: std::pin::Pin<Box<dyn std::future::Future<Output = _>>> = Box::pin(bd.build::<_, _, Bytes>(conn));
+    let Poll::Ready(Ok((_driver, mut snd))) = crate::sim::poll_once(&mut f) else { return "setup-failed".into() };
+    let req = http::Request::builder().method("GET").uri("https://a/").body(()).unwrap();
+    let mut rs = {
+        let mut g: std::pin::Pin<Box<dyn std::future::Future<Output = _>>> = Box::pin(snd.send_request(req));
+        match crate::sim::poll_once(&mut g) {
+            Poll::Ready(Ok(s)) => Rs::Whole(s),
+            _ => return "setup-failed".into(),
+        }
+    };
+    let mut out = Vec::new();
+    for c in calls.chars() {
+        if c == 's' {
+            rs = match std::mem::replace(&mut rs, Rs::Gone) {
+                Rs::Whole(s) => {
+                    let (a, b) = s.split();
+                    Rs::Split(a, b)
+                }
+                other => other,
+            };
+            continue;
+        }
+        let o = poll_recv(&mut rs);
+        let stop = !matches!(o, Obs::Pending | Obs::Data(_));
+        out.push(o);
+        if stop {
+            break;
+        }
+    }
+    normalise(out).iter().map(render_obs).collect::<Vec<_>>().join(" ")
+}
+
 pub fn handle(w: &[&str]) -> String {
     // ops `decS` / `loopS` / `callsS` run the same code as `dec` / `loop` / `calls`; only the Lean side judges them
     // under the strict SETTINGS reading R-02s
@@ -231,6 +443,13 @@ pub fn handle(w: &[&str]) -> String {
         }
         ["fs", "calls" | "callsS", sc, cs] => {
             let Some(script) = parse_script(sc) else { return "bad-op".into() };
+            // the request-level letters: `r` = poll_recv_data, `s` = split (at most once: the halves cannot be split again)
+            if !cs.is_empty() && cs.chars().all(|c| c == 'r' || c == 's') {
+                if cs.chars().filter(|c| *c == 's').count() > 1 {
+                    return "bad-op".into();
+                }
+                return guarded(|| request_calls(script, cs));
+            }
             if !cs.chars().all(|c| c == 'n' || c == 'd') {
                 return "bad-op".into();
             }
